@@ -481,7 +481,7 @@ def check(rep, cases, fcases, proofs_ok, ecases=()):
             continue
         rep.count("glr_cert_pass" if " glr=1" in a else "glr_cert_FAIL")
         if "completeRN=" in a:
-            # hypothesis of C03_engine_reduction_closure; right-nulled tables must pass, plain LALR tables cannot
+            # hypothesis of C03_engine_reduction_closure / C03_engine_complete; right-nulled tables must pass, plain LALR tables cannot
             rep.count(("completeRN_pass:" if "completeRN=1" in a else "completeRN_fail:") + c.settings[1])
         ls = a.rsplit("layoutsafe=", 1)[1].split(" ")[0] if "layoutsafe=" in a else "?"
         rep.count("layoutsafe:" + {"none": "no Layout rule (void)", "cert": "Cert.glrLayout holds",
@@ -491,7 +491,7 @@ def check(rep, cases, fcases, proofs_ok, ecases=()):
         c = min(certf, key=lambda c: len(c.text))
         rep.violation(dict(c.describe(), why="the table of this grammar fails the Lean certificate Cert.glr / Cert.glrLayout (hypotheses "
                            "of C03_engine_sound / C03_engine_no_panic_certified; for LALR_RN tables also Cert.completeRN, hypothesis of "
-                           "C03_engine_reduction_closure): " + cert_answer(c) + " -- soundness and panic freedom "
+                           "C03_engine_reduction_closure / C03_engine_complete): " + cert_answer(c) + " -- soundness and panic freedom "
                            "of the GLR engine are no longer shown for it; no failing input was found", kind="certificate",
                            n_failures=len(certf)), no_input=True)
     if breaks and not failures and not cf:
